@@ -48,7 +48,14 @@ def pre_flags(delim, ropt) -> bool:
 def statements(phys, rdf11=False):
     sp = (alpha.RSPINES if rdf11 else alpha.SPINES)[phys]
     extra = [sp[0], ("T", alpha.I_UNI, alpha.I_ANAME0, alpha.L_EMPTY) if phys == 1 else ("Q", alpha.I_UNI, alpha.I_ANAME0, alpha.L_EMPTY, alpha.I_AX)]
-    return list(sp) + extra
+    out = []
+    for it in list(sp) + extra:
+        out.append(it)
+        if any(t[0] == "triple" for t in it[1:]):
+            # right after a statement holding a quoted triple: a statement that repeats its other terms
+            rep = tuple(alpha.L_LANG if t[0] == "triple" else t for t in it[1:])
+            out.append((it[0],) + rep)
+    return out
 
 
 def refenc(pol: List[int], cut: int, delim: bool, ropt: bool) -> bool:
